@@ -267,7 +267,9 @@ func runC17(c *Ctx, r *Report, tier string) {
 			switch {
 			case strings.HasPrefix(t, "call:(*Group).showInHelp(") && l.Pos,
 				strings.HasPrefix(t, "call:(*Option).showInHelp(") && l.Pos,
-				strings.HasPrefix(t, "lt("):
+				strings.HasPrefix(t, "lt("),
+				// the group's own flag, tested directly: the row writer skips hidden groups by the same test
+				strings.HasPrefix(t, "Group.Hidden(") && !l.Pos:
 				return true
 			}
 			for _, e := range extra {
